@@ -182,3 +182,20 @@ class all_lattice_edges_get_edges:
     }
     result = T.GridT("int", [None, 2, 2])
     props = ["C06"]
+
+
+@contract(MT, "EdgePermuters.RandomCoords._permute")
+class random_coords_permute:
+    """C06: every edge stays in its place with its two coordinates in one of the two orders (whatever the generator draws).  Generator.permuted permutes
+    the row entries and the column entries of a pair INDEPENDENTLY; for a unit lattice edge (the two cells agree in one coordinate) that is still the
+    same edge - hence the precondition"""
+    params = dict(lattice_edges=T.GridT("int", [None, 2, 2]))
+    lets = dict(n="lattice_edges.shape[0]")
+    requires = ["forall(lambda k: lattice_edges[k, 0, 0] == lattice_edges[k, 1, 0] or lattice_edges[k, 0, 1] == lattice_edges[k, 1, 1], (0, n))"]
+    ensures = {
+        "C06.random.shape": "result.shape == (n, 2, 2)",
+        "C06.random.same-edges": "forall(lambda k: forall(lambda e, c: result[k, e, c] == lattice_edges[k, e, c], (0, 2), (0, 2))"
+        " or forall(lambda e, c: result[k, e, c] == lattice_edges[k, 1 - e, c], (0, 2), (0, 2)), (0, n))",
+    }
+    result = T.GridT("int", [None, 2, 2])
+    props = ["C06"]
